@@ -24,7 +24,7 @@ ops (every op prints exactly one line):
   `pub <id>` `err <id>` `evid <id> <val> <h>` `rm <id>` → `ok|notfound <item>`
   `relay <val>`                                      → `<id,…>`
   `bput <nonce> <content> <remote>`                  → `<batch>`
-  `bconf <nonce> <val> <addr> <by> <ref>`            → `ok|notfound|noaddr|mismatch|badsig|dup <batch>`
+  `bconf <nonce> <val> <addr> <by> <ref>`            → `ok|notfound|noaddr|mismatch|badsig|dup|dupkey <batch>`
   `bgas <nonce> <g>`                                 → `ok|refused <batch>`
   `fee <m> <c> <s> <g>`                              → `<r> <c> <s>` | `panic`
   `q <op …>`                                         → first word of the op's answer
@@ -171,6 +171,7 @@ def showConfRes : ConfRes → String
   | .mismatch => "mismatch"
   | .badSig => "badsig"
   | .dup => "dup"
+  | .dupKey => "dupkey"
 
 def withEnv (d : DState) (f : Env → Env) : DState × String :=
   ({ d with s := { d.s with env := f d.s.env } }, "ok")
